@@ -600,18 +600,53 @@ func c13R11(e *Engine) {
 	if !e.anchor("R11", "core.keySchema.GetKey", gk == nil) {
 		return
 	}
-	encoded := func(v ssa.Value) bool {
+	// encoded(v): every use of the text is an argument of a quoting/hex encoder or of an error/panic message (followed
+	// through interface boxing, phis and the argument array of a variadic call); anything else may end up in the key.
+	var encoded func(v ssa.Value) bool
+	seenV := map[ssa.Value]bool{}
+	encoded = func(v ssa.Value) bool {
+		if seenV[v] {
+			return true
+		}
+		seenV[v] = true
 		refs := v.Referrers()
 		if refs == nil || len(*refs) == 0 {
 			return false
 		}
 		for _, r := range *refs {
-			c, ok := r.(*ssa.Call)
-			if !ok {
-				return false
-			}
-			switch staticCalleeName(c) {
-			case "strconv.Quote", "strconv.QuoteToASCII", "net/url.QueryEscape", "encoding/hex.EncodeToString", "encoding/base64.(*Encoding).EncodeToString":
+			switch u := r.(type) {
+			case *ssa.DebugRef:
+			case *ssa.MakeInterface:
+				if !encoded(u) {
+					return false
+				}
+			case *ssa.Phi:
+				if !encoded(u) {
+					return false
+				}
+			case *ssa.Store:
+				// element of the argument array of a variadic call
+				ia, ok := u.Addr.(*ssa.IndexAddr)
+				if !ok || u.Val != v {
+					return false
+				}
+				al, ok := ia.X.(*ssa.Alloc)
+				if !ok {
+					return false
+				}
+				for _, ar := range refsOf(al) {
+					if sl, ok := ar.(*ssa.Slice); ok && !encoded(sl) {
+						return false
+					}
+				}
+			case *ssa.Panic:
+			case *ssa.Call:
+				switch staticCalleeName(u) {
+				case "strconv.Quote", "strconv.QuoteToASCII", "net/url.QueryEscape", "encoding/hex.EncodeToString", "(*encoding/base64.Encoding).EncodeToString",
+					"fmt.Errorf", "errors.New":
+				default:
+					return false
+				}
 			default:
 				return false
 			}
